@@ -194,3 +194,66 @@ Proof.
   destruct (nth_error (lines_of text) (Z.to_nat (line - 1))) as [l|]; [|reflexivity].
   unfold nchars. destruct (col - 1 <=? Z.of_nat (length (chars_of l))); [f_equal; lia | reflexivity].
 Qed.
+
+(* ---------------- the table-based oracle is the specification ---------------- *)
+Lemma nth_offs_from : forall ls off k,
+  nth_error (offs_from off ls) k
+  = match nth_error ls k with Some l => Some (off + lines_len (firstn k ls), l) | None => None end.
+Proof.
+  induction ls as [|x ls IH]; intros off k; [now destruct k|].
+  destruct k as [|k]; cbn [offs_from nth_error firstn lines_len].
+  - now rewrite Z.add_0_r.
+  - rewrite IH. destruct (nth_error ls k); [|reflexivity]. do 2 f_equal. lia.
+Qed.
+
+Lemma offs_from_length : forall ls off, length (offs_from off ls) = length ls.
+Proof. induction ls as [|x ls IH]; intros off; cbn [offs_from length]; [reflexivity | now rewrite IH]. Qed.
+
+Lemma tab_line_text : forall text line,
+  tab_line (text_table text) line
+  = match line_at text line with
+    | Some l => Some (lines_len (firstn (Z.to_nat (line - 1)) (lines_of text)), l)
+    | None => None
+    end.
+Proof.
+  intros text line. unfold tab_line, line_at, text_table. destruct (1 <=? line); [|reflexivity].
+  rewrite nth_offs_from. destruct (nth_error (lines_of text) (Z.to_nat (line - 1))); reflexivity.
+Qed.
+
+Theorem true_byte_tab_ok : forall text line col, true_byte_tab (text_table text) line col = true_byte text line col.
+Proof.
+  intros text line col. unfold true_byte_tab, true_byte. rewrite tab_line_text. unfold line_at.
+  destruct (1 <=? line) eqn:E1; cbn [andb].
+  - destruct (nth_error (lines_of text) (Z.to_nat (line - 1))) as [l|] eqn:En.
+    + assert (Hlt : (Z.to_nat (line - 1) < length (lines_of text))%nat) by (apply nth_error_Some; congruence).
+      replace (line <=? Z.of_nat (length (lines_of text))) with true by lia. cbn [andb].
+      destruct (1 <=? col); cbn [andb]; reflexivity.
+    + apply nth_error_None in En.
+      replace (line <=? Z.of_nat (length (lines_of text))) with false by lia. reflexivity.
+  - reflexivity.
+Qed.
+
+Theorem irregular_before_tab_ok : forall p u text line col,
+  irregular_before_tab p u (text_table text) line col = irregular_before p u text line col.
+Proof.
+  intros. unfold irregular_before_tab, irregular_before. rewrite tab_line_text.
+  destruct (line_at text line); reflexivity.
+Qed.
+
+Theorem located_tab_ok : forall text line col value,
+  located_tab text (text_table text) line col value = located text line col value.
+Proof.
+  intros. unfold located_tab, located. rewrite true_byte_tab_ok, tab_line_text.
+  destruct (true_byte text line col); [|reflexivity]. destruct (line_at text line); reflexivity.
+Qed.
+
+Lemma fast_oracle_ok : forall text line col,
+  true_byte_tab (text_table text) line col = true_byte text line col
+  /\ (forall p u, irregular_before_tab p u (text_table text) line col = irregular_before p u text line col)
+  /\ (forall value, located_tab text (text_table text) line col value = located text line col value).
+Proof.
+  intros. split; [apply true_byte_tab_ok|]. split; intros; [apply irregular_before_tab_ok | apply located_tab_ok].
+Qed.
+
+Lemma byte_classes_ok : forall c, rune_size c = rune_size_N c /\ is_nl c = is_nl_N c.
+Proof. intros c. split; [apply rune_size_spec | apply is_nl_spec]. Qed.
